@@ -262,6 +262,7 @@ class _IState(AH._State):
             # ndarray returns"), the pinned tree a 0-d ndarray ("as an in-memory ndarray"): both are accepted
             self.probe('full_index_returned_numpy_scalar')
             got = np.asarray(got)
+            exp = np.asarray(exp).astype(np.asarray(exp).dtype.newbyteorder('='))   # NumPy scalars are native-endian
         if not isinstance(got, np.ndarray):
             raise Viol('index.get', f'type:{type(got).__name__}', '')
         ok, why = D.arr_equal(got, exp)
